@@ -30,6 +30,16 @@ CLAIMED = {
              "header with the attributed elevation, exactly one date header with the proxy clock, and on signed requests exactly the "
              "proxy's authorization header. Tied to the real listener: raw upstream header lines inspected for spoofed requests.",
         design="§7 C05", technique=E2E_TECH),
+    "C06": dict(
+        text="Lean theorems about the model of the two kernel hooks and four maps: redirect iff (destination in policy and caller not the "
+             "agent), untouched otherwise; for a redirected attempt the audit record under the local source port states uid = low half of "
+             "uid_gid, pid = high half of pid_tgid, is_root iff uid = 0 and the ORIGINAL destination, under any interleaving of other "
+             "threads' hook invocations between the two hook points; user-space key/value encoders agree with the kernel program's "
+             "layout and byte order (bswap16 involutive, address bytes, ip string round trip); generated address constants are proof "
+             "obligations. Tied to the UNMODIFIED ebpf_cgroup.c compiled in user space against a simulator of the documented BPF "
+             "helper/map semantics, fed with the arrays the real Rust encoders produce and decoded by the real Rust decoder (hook H4). "
+             "Verifier/attach/LRU eviction are the kernel's (partial).",
+        design="§7 C06, §8 F4", technique="Lean 4 proof over a model of the hooks + differential correspondence with the C program in user space"),
     "C07": dict(
         text="Lean theorems about the attribution model (lookup-then-remove at accept, immutable per-connection context): context = own "
              "record, record consumed, port reuse without a fresh record is unattributed and refused, requests use their own context under "
@@ -145,6 +155,6 @@ def main():
     json.dump(m, open(os.path.join(VERIF, "MANIFEST.json"), "w"), indent=1)
 
 NA = {}
-HOOK_COMMITS = ["e53c7a7", "ad3b7ad", "3a80227"]
+HOOK_COMMITS = ["e53c7a7", "ad3b7ad", "3a80227", "d817674"]
 if __name__ == "__main__":
     main()
